@@ -217,6 +217,10 @@ func (l *Gradient2Limit) OnSample(startTime int64, rtt int64, inFlight int, didD
 	// allow it to be reduced by more than half to avoid aggressive load-shedding due to
 	// outliers.
 	gradient := math.Max(0.5, math.Min(1.0, longRTT/shortRTT))
+	if math.IsNaN(gradient) {
+		// a zero RTT sample (0/0) carries no queueing information
+		gradient = 1.0
+	}
 	newLimit := l.estimatedLimit*gradient + float64(queueSize)
 	newLimit = l.estimatedLimit*(1-l.smoothing) + newLimit*l.smoothing
 	newLimit = math.Max(float64(l.minLimit), math.Min(float64(l.maxLimit), newLimit))
